@@ -45,6 +45,7 @@ import PS.Proofs.TtcfgCountS
 import PS.Proofs.TtcfgNoRepair
 import PS.Proofs.TtcfgCleanFirst
 import PS.Proofs.TtcfgBuildExact
+import PS.Proofs.TtcfgTotal
 namespace PS.T
 open PS PS.G
 
@@ -873,5 +874,56 @@ open Ex in
     that `clean` removes later -/
 example : ((saturationTable (sizeBuilder small 2 3 true) small.prims int true 100).map (fun G =>
     AList.contains S0 G.rules && AList.contains A G.rules && AList.contains B G.rules)) = some true := by decide +kernel
+
+/-! ## TOTAL CORRECTNESS: the construction returns, within explicit fuel -/
+
+/-- **`clean()` terminates** on every table whose machine of partial derivations has a rank (a
+    function of (non-terminal, pending stack) decreasing along every step `clean()` follows; pass 1
+    and the inner passes de-duplicate nothing, so on a recursive table they do not end): with
+    `fuel ≥ satBound b (rk start) + |rules| + 1` (`b` = longest row; at most `|non-terminals| + 1`
+    passes: a pass that reports a change removed a non-terminal) the model returns a table. -/
+theorem C13_clean_terminates {S T : Type} [DecidableEq S] [DecidableEq T] (G : TT S T) (b : Nat)
+    (hb : ∀ e ∈ G.rules, e.2.length ≤ b) (hr : rowsNodup G = true)
+    (rk : CConfig S T → Nat) (hdec : ∀ c d, CStep G c d → rk d < rk c)
+    (hs : inRules G G.start = true) (fuel : Nat)
+    (hf : satBound b (rk (G.start, [])) + G.rules.length + 1 ≤ fuel) : ∃ G', clean G fuel = .ok G' :=
+  clean_terminates G b hb hr rk hdec hs fuel hf
+
+/-- **`programs()` terminates on non-recursive tables**: if `(m, ρ)` ranks the table (`m` never
+    grows from a non-terminal's state to the state of one of its rules, `ρ` decreases from a
+    non-terminal to the argument slots of its rules and is monotone in `m`), the recursion of
+    `__compute__` is at most `ρ start + 2` deep. -/
+theorem C13_programs_terminates {S T : Type} [DecidableEq S] [DecidableEq T] (G : TT S T) (hU : noUnknownKey G = true)
+    (m : T → Nat) (ρ : Ty × S → T → Nat) (hR : Ranked G m ρ) (fuel : Nat)
+    (hf : ρ (G.start.1, G.start.2.1) G.start.2.2 + 2 ≤ fuel) : (programsR G fuel).isSome = true :=
+  programsR_terminates G hU m ρ hR fuel hf
+
+/-- **`TTCFG.size_constraint`, total correctness** (the code as it is now): for EVERY DSL (a list of
+    primitives without `UnknownType` arguments), request, bound `k` and n-gram width ≥ 2 or unbounded,
+    with `fuel ≥ sizeFuel = 2·(1 + b + … + b^(k+1)) + k + 3` (`b` = variables + primitives) the model
+    of the constructor RETURNS a grammar `g`; it reports the request it was compiled for, contains
+    exactly the well-typed programs with at most `k` nodes and no forbidden pattern, and `programs()`
+    returns their number. -/
+theorem C13_size_total (dsl : Dsl) (hwf : wfDsl dsl = true) (request : Ty) (hU : noUnknownDsl dsl request = true)
+    (k : Nat) (nG : Int) (hn : nG ≥ 2 ∨ nG < 0) (fuel : Nat) (hf : sizeFuel dsl request k ≤ fuel) :
+    ∃ g : TTG Ctx (Nat × Nat), sizeConstraint dsl request k nG true true fuel = .ok g ∧ g.typeRequest = request ∧
+      (∀ t, PS.G.contains g.G t = Sized dsl request k t) ∧
+      ∃ (n : Nat) (L : List Prog), programsR g.G fuel = some n ∧ L.Nodup ∧ n = L.length ∧
+        ∀ t, t ∈ L ↔ Sized dsl request k t = true := by
+  obtain ⟨G0, G, h0, h1, h2⟩ := size_total dsl request hU nG k true true fuel hf
+  have hg : sizeConstraint dsl request k nG true true fuel = .ok ⟨G, request⟩ := by
+    unfold sizeConstraint; rw [h0]; simp only; rw [h1]
+  refine ⟨⟨G, request⟩, hg, rfl, C13_size dsl hwf request hU k nG hn fuel _ hg, ?_⟩
+  cases hp : programsR G fuel with
+  | none => rw [hp] at h2; cases h2
+  | some n =>
+    obtain ⟨L, l1, l2, l3⟩ := C13_count_size dsl hwf request hU k nG hn fuel _ hg fuel n hp
+    exact ⟨n, L, rfl, l1, l2, l3⟩
+
+open Ex in
+/-- non-vacuity: {+, 1} / int / 3 nodes: `sizeFuel` = 2·31 + 6 = 68, and with that fuel the constructor
+    returns a grammar with 2 programs -/
+example : sizeFuel small int 3 = 68 ∧ wfDsl small = true ∧ noUnknownDsl small int = true ∧
+    onTable (sizeConstraint small int 3 2 true true 68) (fun G => programsR G 68 == some 2) = true := by decide +kernel
 
 end PS.T
